@@ -28,7 +28,7 @@ namespace OP2Utility::Stream
 			iosOpenMode |= std::ios_base::trunc;
 		}
 		if ((openMode & OpenMode::Append) != 0) {
-			iosOpenMode |= std::ios_base::ate;
+			iosOpenMode |= std::ios_base::app | std::ios_base::ate;
 		}
 		return iosOpenMode;
 	}
